@@ -25,7 +25,7 @@ var (
 )
 
 // handler results
-var resultNames = []string{"out0", "out1", "out2", "out2+cid", "err-plain", "err-wrapped-plain", "err-wrapped-listed", "err-listed+out", "panic-value", "panic-error", "panic-nil"}
+var resultNames = []string{"out0", "out1", "out2", "out2+cid", "err-plain", "err-wrapped-plain", "err-wrapped-listed", "err-listed+out", "err-rootless+out", "panic-value", "panic-error", "panic-nil"}
 
 type outcome struct {
 	outs     []*message.Message
@@ -54,6 +54,8 @@ func produce(kind string, m *message.Message) ([]*message.Message, error) {
 		return nil, errors.Wrap(listed, "while doing something")
 	case "err-listed+out":
 		return hx.Outputs(m, 1), listed
+	case "err-rootless+out": // an application error in the "causer" convention with nothing underneath
+		return hx.Outputs(m, 1), &stepError{step: "validate"}
 	case "panic-value":
 		panic("boom value")
 	case "panic-error":
@@ -62,6 +64,25 @@ func produce(kind string, m *message.Message) ([]*message.Message, error) {
 		panic(nil)
 	}
 	return nil, nil
+}
+
+// stepError follows the Cause()/Unwrap() conventions and has no underlying error.
+type stepError struct{ step string }
+
+func (e *stepError) Error() string { return "step " + e.step + " failed" }
+func (e *stepError) Cause() error  { return nil }
+func (e *stepError) Unwrap() error { return nil }
+
+// isListed: the error, or what it wraps, is the listed one (an error with nothing underneath is its own root).
+func isListed(err error) bool {
+	if err == nil {
+		return false
+	}
+	root := errors.Cause(err)
+	if root == nil {
+		root = err
+	}
+	return root.Error() == listed.Error()
 }
 
 // call runs f and captures an escaping panic.
@@ -165,7 +186,7 @@ func singleScenario() *explore.Scenario {
 				vs.Fail("throttle-rate", "%s: handler started %v after the throttle was created, tick period 10ms", cfg, inside.startedAt)
 			}
 		case "IgnoreErrors":
-			if bare.err != nil && errors.Cause(bare.err).Error() == listed.Error() {
+			if isListed(bare.err) {
 				expectErrNil = true
 			}
 		}
